@@ -265,8 +265,9 @@ theorem C34_sessions_current (sessions : List (Env × List (User × String × Ta
     intro l hg hr
     obtain ⟨env, calls, k⟩ := s
     simp only [runThreadWith, List.map_cons]
-    have h1 := runSessionCalls_inv env calls { perm := [], loc := l } cacheInv_nil (lInv_empty env l hg hr)
-    generalize runSessionCalls env { perm := [], loc := l } calls = res at h1
+    have h1 := runSessionCalls_inv env calls { perm := [], loc := l, labels := [] } cacheInv_nil (lInv_empty env l hg hr)
+      (by intro kv h; cases h)
+    generalize runSessionCalls env { perm := [], loc := l, labels := [] } calls = res at h1
     obtain ⟨rs, s1⟩ := res
     simp only at h1 ⊢
     rw [h1, ih (exitSession k s1.loc) (by cases k <;> rfl) (by cases k <;> rfl)]
